@@ -870,7 +870,8 @@ LINE_FIELDS = ("op", "back", "sched", "steps", "obs", "closed", "client", "encNe
 
 
 def strip(ln):
-    return {k: v for k, v in ln.items() if k in LINE_FIELDS}
+    # an (R) line carries the events per delivery; TLC derives the per-stream events from them
+    return {k: v for k, v in ln.items() if k in LINE_FIELDS and not (k == "obs" and ln["op"] == "r")}
 
 
 def run_r(check, rnd, seqs, thorough, only=None):
